@@ -88,6 +88,7 @@ int main(int argc, char **argv) {
   bool fk = flags.find('k') != std::string::npos;   // tokens only (--tokens)
   bool fo = flags.find('o') != std::string::npos;   // also the lowered and optimised directive lists
   bool ff = flags.find('f') != std::string::npos;   // also frame events
+  bool fg = flags.find('g') != std::string::npos;   // with y: the intermediate and lowered directive lists instead of the trees
   bool fy = flags.find('y') != std::string::npos;   // syntax only: token list (from the lexer itself), --tree and --tree-opt text
   if (chdir(scratch.c_str()) != 0) return 2;
   signal(SIGVTALRM, on_alarm);
@@ -137,6 +138,7 @@ int main(int argc, char **argv) {
       toks += "]";
       std::string out[2], st[2], dg[2];
       xcmp::DriverAction acts[2] = {xcmp::DriverAction::EMIT_TREE, xcmp::DriverAction::EMIT_OPTIMISED_TREE};
+      if (fg) { acts[0] = xcmp::DriverAction::EMIT_INTERMEDIATE_INSTS; acts[1] = xcmp::DriverAction::EMIT_LOWERED_INSTS; }
       for (int k = 0; k < 2; k++) {
         std::ostringstream ts; st[k] = "ok";
         try { xcmp::Driver dr(ts); dr.run(acts[k], src, false); } catch (const std::exception &e) { st[k] = "error"; dg[k] = e.what(); }
